@@ -32,6 +32,25 @@ def r05_1(ctx):
     fn = f.node
     loops = [l for l in fn.body if isinstance(l, ast.For)]
     ctx.floor('R05.1', 'row loops of knot_insertion', len(loops), 3)
+    # single-assignment integer locals (first = k + 1 - p) are substituted into the loop bounds
+    env = {}
+    counts = {}
+    for s in own_nodes(fn):
+        if isinstance(s, (ast.Assign, ast.AugAssign)):
+            for t in (s.targets if isinstance(s, ast.Assign) else [s.target]):
+                for x in ast.walk(t):
+                    if isinstance(x, ast.Name):
+                        counts[x.id] = counts.get(x.id, 0) + 1
+    for s in fn.body:
+        if isinstance(s, ast.Assign) and len(s.targets) == 1 and isinstance(s.targets[0], ast.Name) and counts.get(s.targets[0].id) == 1 \
+                and s.targets[0].id not in ('k', 'p', 'n'):
+            try:
+                v = affine.from_ast(s.value, env=env, opaque=False)
+            except affine.NonAffine:
+                continue
+            if v.symbols() <= {'k', 'p', 'n'}:
+                env[s.targets[0].id] = v
+    _from_ast = affine.from_ast
     ivs = []
     for l in loops:
         it = l.iter
@@ -42,8 +61,8 @@ def r05_1(ctx):
         if not (isinstance(it, ast.Call) and call_name(it) == 'range' and 1 <= len(it.args) <= 2):
             ctx.undecided('R05.1', f.qual, src(l.iter), l, 'loop range not recognised')
             return
-        lo = affine.from_ast(it.args[0]) if len(it.args) == 2 else Lin.const(0)
-        hi = affine.from_ast(it.args[-1])
+        lo = affine.from_ast(it.args[0], env=env) if len(it.args) == 2 else Lin.const(0)
+        hi = affine.from_ast(it.args[-1], env=env)
         ivs.append((lo, hi, l))
     # shape of P
     alloc = [s for s in fn.body if isinstance(s, ast.Assign) and src(s.targets[0]) == 'P']
